@@ -30,10 +30,6 @@ def enumLookup (name : String) (n : Nat) : String :=
   | "StatusCode" => f StatusCode.table
   | _ => "bad-enum"
 
-/-- `IppHeader::status_code()` then `is_success()` -/
-def statusOf (c : Nat) : StatusCode := (StatusCode.fromCode c).getD .UnknownStatusCode
-def isSuccess (s : StatusCode) : Bool := successVariants.contains s
-
 def dispatch (op : String) (args : List SExp) : String :=
   match op, args with
   | "status", [.atom h] =>
@@ -57,6 +53,12 @@ def dispatch (op : String) (args : List SExp) : String :=
     (match readMsg m with
      | some (h, gs) => bytesToHex (encodeMsg h gs)
      | none => "(bad-arg)")
+  | "roundtrip", [m, .atom p] =>
+    (match readMsg m, hexToBytes p with
+     | some (h, gs), some pay =>
+        let bytes := encodeMsg h gs
+        s!"{bytesToHex bytes} {showParsed bytesToHex (parseFlat (bytes ++ pay))}"
+     | _, _ => "(bad-arg)")
   | "parse", [.atom h] =>
     (match hexToBytes h with
      | some b => showParsed bytesToHex (parseFlat b)
